@@ -548,7 +548,10 @@ class EventBus:
             if current_event is not None and current_handler_id in current_event.event_results:
                 # Only add as child if it's a different event (not forwarding the same event)
                 if event.event_id != current_event.event_id:
-                    current_event.event_results[current_handler_id].event_children.append(event)
+                    handler_children = current_event.event_results[current_handler_id].event_children
+                    # a handler may dispatch the same child event to several buses: record it once
+                    if not any(child.event_id == event.event_id for child in handler_children):
+                        handler_children.append(event)
 
         # Add this EventBus to the event_path if not already there
         if self.name not in event.event_path:
